@@ -217,6 +217,11 @@ func ValidateParameter(ctx context.Context, input *RequestValidationInput, param
 					q.Set(parameter.Name, joinValues(values, sep))
 				}
 				req.URL.RawQuery = q.Encode()
+				if cached := input.QueryParams; cached != nil {
+					// the query this input has parsed already must see the default too, or validating once more
+					// with the same input adds it a second time
+					cached[parameter.Name] = q[parameter.Name]
+				}
 			case openapi3.ParameterInHeader:
 				req.Header.Add(parameter.Name, defaultText(value))
 			case openapi3.ParameterInCookie:
